@@ -10,7 +10,7 @@ use std::collections::BTreeMap;
 use std::io::Write;
 use std::panic::{AssertUnwindSafe, catch_unwind};
 
-pub trait ArenaX: Allocator + 'static {
+pub trait ArenaX: Allocator + std::fmt::Debug + 'static {
   const SYNC: bool;
   fn snap(&self, max: usize) -> FreelistSnapshot;
   fn truncate_x(&mut self, n: usize) -> Option<std::io::Result<()>>;
@@ -151,6 +151,24 @@ pub trait Driven {
   fn finish(&mut self);
 }
 
+/// freelist kind as the arena's Debug output shows it ("Optimistic" / "Pessimistic" / "None")
+fn debug_kind<A: ArenaX>(a: &A) -> String {
+  let d = format!("{a:?}");
+  for k in ["Optimistic", "Pessimistic", "None"] {
+    if d.contains(&format!("freelist: {k}")) {
+      return k.to_string();
+    }
+  }
+  "?".to_string()
+}
+
+fn file_rle(p: &std::path::Path) -> (u64, Value) {
+  match std::fs::read(p) {
+    Ok(b) => (b.len() as u64, rle(&b)),
+    Err(_) => (0, json!([])),
+  }
+}
+
 pub struct Inst<A: ArenaX> {
   arena: *mut A,
   handles: BTreeMap<u32, Box<dyn AnyHandle>>,
@@ -158,6 +176,8 @@ pub struct Inst<A: ArenaX> {
   file: Option<std::path::PathBuf>,
   backend: String,
   dead: bool,
+  closed: bool,
+  cfg: Value,
 }
 
 impl<A: ArenaX> Inst<A> {
@@ -169,6 +189,8 @@ impl<A: ArenaX> Inst<A> {
       file,
       backend: backend.to_string(),
       dead: false,
+      closed: false,
+      cfg: Value::Null,
     };
     // mark the reserved prefix so that any arena write into it is visible
     unsafe {
@@ -383,6 +405,64 @@ impl<A: ArenaX> Inst<A> {
           Some(Err(e)) => json!({"k": "err_io", "kind": format!("{:?}", e.kind())}),
         }
       }
+      "flush" => match a.flush() {
+        Ok(()) => json!({"k": "ok"}),
+        Err(e) => json!({"k": "err_io", "kind": format!("{:?}", e.kind())}),
+      },
+      "reopen" => {
+        // close (all handles are given up = detached) and open the same file again
+        let inv = self.invalidate_above(0);
+        self.handles.clear();
+        self.next_id = 1;
+        let path = self.file.clone().expect("reopen needs a file-backed arena");
+        if op["flush"].as_bool().unwrap_or(false) {
+          let _ = a.flush();
+        }
+        unsafe { drop(Box::from_raw(self.arena)) };
+        self.closed = true;
+        let _ = take_api();
+        let (len0, file0) = file_rle(&path);
+        let cfg = self.cfg.clone();
+        let mut o = options_of(&cfg);
+        // capacity on reopen: absent (0), or an explicit value
+        let capv = op["cap"].as_u64().unwrap_or(0);
+        o = o.maybe_capacity(if capv == 0 { None } else { Some(capv as u32) });
+        if let Some(m) = op.get("magic").and_then(|v| v.as_u64()) {
+          o = o.with_magic_version(m as u16);
+        }
+        if let Some(kd) = op.get("kind").and_then(|v| v.as_str()) {
+          o = o.with_freelist(freelist_of(kd));
+        }
+        let variant = op["variant"].as_str().unwrap();
+        let r = unsafe {
+          match variant {
+            "map_mut" => o.with_read(true).with_write(true).with_create(op["create"].as_bool().unwrap_or(false)).map_mut::<A, _>(&path),
+            "map_copy" => o.with_read(true).with_write(true).map_copy::<A, _>(&path),
+            "map" => o.with_read(true).map::<A, _>(&path),
+            "map_copy_ro" => o.with_read(true).map_copy_read_only::<A, _>(&path),
+            v => panic!("bad variant {v}"),
+          }
+        };
+        let (len1, file1) = file_rle(&path);
+        match r {
+          Ok(arena) => {
+            self.arena = Box::into_raw(Box::new(arena));
+            self.closed = false;
+            let a2 = self.a();
+            extra = json!({"invalidated": inv, "file_before": {"len": len0, "rle": file0}, "file_after": {"len": len1, "rle": file1},
+                           "descr": {"read_only": a2.read_only(), "magic_version": a2.magic_version(), "version": a2.version(),
+                                     "kind": debug_kind(a2), "unify": a2.unify(), "is_map_file": a2.is_map_file(),
+                                     "reserved_len": a2.reserved_slice().len(), "capacity": a2.capacity()}});
+            json!({"k": "ok"})
+          }
+          Err(e) => {
+            // no arena any more: the instance is finished
+            let ev = json!({"res": {"k": "err_io", "kind": format!("{:?}", e.kind())}, "invalidated": inv,
+                            "file_before": {"len": len0, "rle": file0}, "file_after": {"len": len1, "rle": file1}});
+            return ev;
+          }
+        }
+      }
       _ => panic!("unknown op {k}"),
     };
     let mut ev = json!({"res": res, "obs": self.obs(), "mem": self.mem(), "api": take_api()});
@@ -404,6 +484,7 @@ impl<A: ArenaX> Driven for Inst<A> {
   }
 
   fn describe(&mut self, cfg: &Value) -> Value {
+    self.cfg = cfg.clone();
     let a = self.a();
     let opts = options_of(cfg);
     json!({
@@ -430,6 +511,7 @@ impl<A: ArenaX> Driven for Inst<A> {
       "page_size": a.page_size(),
       "os_page_size": unsafe { libc::sysconf(libc::_SC_PAGESIZE) },
       "minimum_segment_size": a.minimum_segment_size(),
+      "kind": debug_kind(a),
       "base_mod": (a.raw_ptr() as usize) % 4096,
       "obs": self.obs(),
       "mem": self.mem(),
@@ -437,7 +519,7 @@ impl<A: ArenaX> Driven for Inst<A> {
   }
 
   fn apply(&mut self, op: &Value) -> Value {
-    if self.dead {
+    if self.dead || self.closed {
       return json!({"res": {"k": "dead"}});
     }
     let r = catch_unwind(AssertUnwindSafe(|| self.apply_in(op)));
@@ -468,8 +550,10 @@ impl<A: ArenaX> Driven for Inst<A> {
         std::mem::forget(h);
       }
     }
-    unsafe {
-      drop(Box::from_raw(self.arena));
+    if !self.closed {
+      unsafe {
+        drop(Box::from_raw(self.arena));
+      }
     }
     if let Some(p) = self.file.take() {
       let _ = std::fs::remove_file(p);
